@@ -277,6 +277,13 @@ def coq_op(op, step):
         return 'OBindExit'
     if o == 'bind_raise':
         return 'OBindRaise %s' % cnat(op['k'])
+    if o == 'sync':
+        uid = 0
+        for ev in step['ev']:
+            for m in event_msgs(ev):
+                if m[0] == '/sync' and m[1] and m[1][0][0] == 'i':
+                    uid = m[1][0][1]
+        return 'OSync %s' % cz(uid)
     raise ValueError(o)
 
 
@@ -339,7 +346,11 @@ def coq_case(h, out):
     ops = clist([('(%s)' % coq_op(op, st)) for op, st in zip(h['ops'], out['steps'])])
     f = out['final']
     lat = f.get('latency')
-    steps = clist(['(%s, %s)' % (clist([cev(e, lat) for e in st['ev']]), cz(err_code(st['exc']))) for st in out['steps']])
+    def code(op, st):
+        if op['op'] == 'sync' and st['exc'] in ('TypeError', 'ValueError'):
+            return 2          # the collected part could not be sized / encoded: sync() raises like a failing flush
+        return err_code(st['exc'])
+    steps = clist(['(%s, %s)' % (clist([cev(e, lat) for e in st['ev']]), cz(code(op, st))) for op, st in zip(h['ops'], out['steps'])])
     fin = '(%s, %s, %s)' % (cblocks(f['buf_blocks']), cblocks(f['cbus_blocks']), cblocks(f['abus_blocks']))
     objs = '(%s, %s, %s)' % (clist(f['node_ids'], oz), clist(f['bufnums'], oz), clist(f['bus_index'], oz))
     return '(%s, %s, %s, %s, %s)' % (ops, steps, fin, objs, cbool(h['cls'] == 'valid'))
@@ -509,6 +520,8 @@ def monitors(h, out, default_group=1):
                 if ev[0] != 'B':
                     continue
                 want = lat if (o in ('bind_exit', 'n_release')) else None
+                if o == 'sync':
+                    want = None if [m[0] for m in ev[2]] == ['/sync'] else lat
                 got_t = ev[1]
                 if (want is None) != (got_t is None) or (want is not None and Fraction(want) != Fraction(got_t)):
                     bad.append((None, 'op %d (%s): bundle time %s, expected %s (Server.latency = %s)' % (i, o, got_t, want, lat)))
@@ -674,8 +687,10 @@ def monitors(h, out, default_group=1):
             depth -= op['k']
             if st['ev']:
                 bad.append((None, 'op %d: bind() left by an exception sent %s' % (i, st['ev'])))
-        elif depth > 0 and st['ev']:
+        elif depth > 0 and st['ev'] and o != 'sync':
             bad.append((None, 'op %d (%s) inside bind() reached the wire immediately: %s' % (i, o, st['ev'])))
+    for t in out.get('cross', []):
+        bad.append((None, t))
     fin = out['final']
     if 'addr_not_restored' in fin:
         bad.append((None, 'after the history server.addr is still a %s' % fin['addr_not_restored']))
@@ -688,7 +703,7 @@ def monitors(h, out, default_group=1):
 def strip_binds(ops):
     """the same ops outside any bind(): blocks left by an exception still run (their effects on the
     client objects are kept), only the wire behaviour differs."""
-    return [o for o in ops if o['op'] not in ('bind_enter', 'bind_exit', 'bind_raise')]
+    return [o for o in ops if o['op'] not in ('bind_enter', 'bind_exit', 'bind_raise', 'sync')]
 
 
 def bind_metamorphic(h, out, flat_out):
@@ -728,6 +743,22 @@ def bind_metamorphic(h, out, flat_out):
                 stack.pop()
             if st['ev']:
                 bad.append((None, 'op %d: commands sent although the block raised: %s' % (i, st['ev'])))
+        elif o == 'sync':
+            # everything collected so far (outer blocks first) leaves before the '/sync'; the blocks stay open, empty
+            pending = [m for lvl in stack for m in lvl]
+            evs = st['ev']
+            got = [m for ev in evs for m in event_msgs(ev) if m[0] != '/sync']
+            nsync = sum(1 for ev in evs for m in event_msgs(ev) if m[0] == '/sync')
+            if st['exc'] is None:
+                if norm(got) != norm(pending):
+                    bad.append((None, 'op %d: server.sync() inside bind() sent %s before the /sync, the commands issued since the last sync are %s' % (
+                        i, [m[0] for m in got], [m[0] for m in pending])))
+                if nsync != 1 or not evs or [m[0] for m in event_msgs(evs[-1])] != ['/sync']:
+                    bad.append((None, 'op %d: server.sync() must end with exactly one /sync bundle, events %s' % (i, [[m[0] for m in event_msgs(ev)] for ev in evs])))
+                if pending and len(evs) != 2:
+                    bad.append((None, 'op %d: %d packets at a sync (expected the collected bundle and the /sync)' % (i, len(evs))))
+            for lvl in stack:
+                del lvl[:]
         else:
             fs = next(flat_steps)
             msgs = [m for ev in fs['ev'] for m in event_msgs(ev)]
@@ -812,6 +843,132 @@ FIXED_HISTORIES = [
         {'op': 'n_free', 'n': 0, 'send': True},
         {'op': 'bind_raise', 'k': 2}]},
 ]
+
+
+MULTI_FIXED = [
+    # every node constructor, buffers and buses, a bind block: once per server, interleaved
+    {'cls': 'valid', 'tags': ['fixed:two-servers'], 'ops': [
+        {'op': 'group', 'par': False, 'ctor': 'init', 'target': {'t': 'none'}, 'action': 'addToHead'},
+        {'op': 'group', 'par': False, 'ctor': 'init', 'target': {'t': 'none'}, 'action': 'addToTail'},
+        {'op': 'group', 'par': True, 'ctor': 'after', 'target': {'t': 'node', 'i': 0}, 'action': 0},
+        {'op': 'synth', 'ctor': 'init', 'def': 'default', 'args': None, 'target': {'t': 'node', 'i': 0}, 'action': 'addToTail', 'same_id': False},
+        {'op': 'synth', 'ctor': 'new_paused', 'def': 'default', 'args': None, 'target': {'t': 'node', 'i': 0}, 'action': 'addToHead', 'same_id': False},
+        {'op': 'synth', 'ctor': 'new_paused', 'def': 'default', 'args': None, 'target': {'t': 'none'}, 'action': 1, 'same_id': False},
+        {'op': 'synth', 'ctor': 'grain', 'def': 'default', 'args': None, 'target': {'t': 'node', 'i': 1}, 'action': 0, 'same_id': False},
+        {'op': 'synth', 'ctor': 'replace', 'def': 'default', 'args': None, 'target': {'t': 'node', 'i': 3}, 'action': 0, 'same_id': False},
+        {'op': 'synth', 'ctor': 'before', 'def': 'default', 'args': None, 'target': {'t': 'node', 'i': 3}, 'action': 0, 'same_id': False},
+        {'op': 'basic_new', 'id': 1},
+        {'op': 'n_move_to_head', 'n': 3, 't': None},
+        {'op': 'b_new', 'frames': 8, 'channels': 1, 'compl': None},
+        {'op': 'b_consecutive', 'n': 2, 'frames': 8, 'channels': 1, 'compl': None},
+        {'op': 'bus_new', 'audio': False, 'channels': 2},
+        {'op': 'bind_enter'},
+        {'op': 'n_set', 'n': 3, 'args': [{'v': 's', 'x': 'freq'}, {'v': 'bus', 'i': 0}]},
+        {'op': 'bus_set', 'u': 0, 'values': [{'v': 'i', 'x': 1}]},
+        {'op': 's_reorder', 'nodes': [3], 'target': {'t': 'none'}, 'action': 0},
+        {'op': 'bind_exit'},
+        {'op': 'b_free_all'},
+        {'op': 's_free_default_group', 'all': False}]},
+]
+
+RT_FIXED_HISTORIES = [
+    {'cls': 'valid', 'tags': ['fixed:sync-in-bind'], 'latency': '1/4', 'ops': [
+        {'op': 'group', 'par': False, 'ctor': 'init', 'target': {'t': 'none'}, 'action': 'addToHead'},
+        {'op': 'sync'},
+        {'op': 'bind_enter'},
+        {'op': 'n_run', 'n': 0, 'flag': {'v': 'b', 'x': True}},
+        {'op': 'sync'},
+        {'op': 'synth', 'ctor': 'init', 'def': 'default', 'args': None, 'target': {'t': 'node', 'i': 0}, 'action': 'addToTail', 'same_id': False},
+        {'op': 'n_set', 'n': 1, 'args': [{'v': 's', 'x': 'amp'}, {'v': 'f', 'x': '1/2'}]},
+        {'op': 'sync'},
+        {'op': 'sync'},
+        {'op': 'bind_enter'},
+        {'op': 'n_trace', 'n': 1},
+        {'op': 'sync'},
+        {'op': 'n_query', 'n': 1},
+        {'op': 'bind_exit'},
+        {'op': 'n_free', 'n': 1, 'send': True},
+        {'op': 'bind_exit'},
+        {'op': 'bind_enter'}, {'op': 'sync'}, {'op': 'n_free', 'n': 0, 'send': True}, {'op': 'bind_raise', 'k': 1}]},
+]
+
+
+# ---- several servers in one history ------------------------------------------------------
+# The system with two Server objects is the product of two copies of the single-server model: every op addresses
+# one server (through its target / server argument), must draw its ids from that server's allocators and must send
+# to that server's address only.  A two-server history is two single-server histories interleaved.
+
+def to_other_server(h):
+    """the same history addressed to a non-default server: targets that mean 'the default server' (None, a number)
+    are given as the server object instead"""
+    ops = []
+    for o in h['ops']:
+        o = dict(o)
+        t = o.get('target')
+        if isinstance(t, dict) and t.get('t') in ('none', 'int'):
+            o['target'] = {'t': 'server'}
+        ops.append(o)
+    return dict(h, ops=ops)
+
+
+def units(ops):
+    """top-level units: a single op outside bind, or a whole block"""
+    out, cur, d = [], [], 0
+    for o in ops:
+        cur.append(o)
+        if o['op'] == 'bind_enter':
+            d += 1
+        elif o['op'] == 'bind_exit':
+            d -= 1
+        elif o['op'] == 'bind_raise':
+            d -= o['k']
+        if d == 0:
+            out.append(cur); cur = []
+    if cur:
+        out.append(cur)
+    return out
+
+
+def merge(rng, h0, h1):
+    """h0's ops with the units of h1 inserted at random places (also inside h0's open blocks)"""
+    base = [dict(o, srv=0) for o in h0['ops']]
+    us = units(h1['ops'])
+    cuts = sorted(rng.randint(0, len(base)) for _ in us)
+    merged, k = [], 0
+    for pos in range(len(base) + 1):
+        while k < len(us) and cuts[k] == pos:
+            merged += [dict(o, srv=1) for o in us[k]]; k += 1
+        if pos < len(base):
+            merged.append(base[pos])
+    return merged
+
+
+def split_multi(merged, out, hpair):
+    """-> [(h_k, out_k)]: the single-server view of each server, plus the cross-server findings"""
+    res = []
+    for k in (0, 1):
+        steps, cross = [], []
+        for i, (op, st) in enumerate(zip(merged, out['steps'])):
+            if op['srv'] != k:
+                continue
+            mine = [e[:-1] for e in st['ev'] if e[-1] == k]
+            for e in st['ev']:
+                if e[-1] != k:
+                    cross.append('op %d of the merged history (%s on server %d) sent %s to the address of server %s' % (
+                        i, op['op'], k, [m[0] for m in event_msgs(e)], e[-1]))
+            for a in st['alloc']:
+                if a[-1] != k:
+                    cross.append('op %d of the merged history (%s on server %d) drew %s %s from the allocator of server %d' % (
+                        i, op['op'], k, a[0], a[1], a[-1]))
+            step = dict(st, ev=mine, alloc=[a[:-1] for a in st['alloc'] if a[-1] == k], free=[a[:-1] for a in st['free'] if a[-1] == k])
+            steps.append(step)
+        fin = dict(out['finals'][k]) if 'finals' in out else {}
+        for key, what in (('node_servers', 'node'), ('buf_servers', 'buffer'), ('bus_servers', 'bus')):
+            for j, sv in enumerate(fin.get(key, [])):
+                if sv is not None and sv != k:
+                    cross.append('%s object %d created for server %d belongs to server %d' % (what, j, k, sv))
+        res.append((dict(hpair[k], mode='multi'), {'steps': steps, 'final': fin, 'cross': cross, 'merged': merged}))
+    return res
 
 
 def load_corpus():
@@ -933,11 +1090,43 @@ def correspond(ctx):
     nv, nm = ctx.n(500, 5000), ctx.n(250, 2500)
     hs += [c17_gen.gen_history(rng, 'valid') for _ in range(nv)]
     hs += [c17_gen.gen_history(rng, 'misuse') for _ in range(nm)]
-    res = ctx.impl('c17_hist', {'histories': [h['ops'] for h in hs], 'latencies': [h.get('latency') for h in hs]}, timeout=900)
-    outs = res['out']
-    SD_NBYTES[0] = res['sd_nbytes']
-    flat = ctx.impl('c17_hist', {'histories': [strip_binds(h['ops']) for h in hs if h['cls'] == 'valid'],
-                                 'latencies': [h.get('latency') for h in hs if h['cls'] == 'valid']}, timeout=900)['out']
+    # real-time mode: the same kind of histories plus server.sync() anywhere (in NRT Server.sync never reaches the address)
+    hs_rt = [dict(h, mode='rt') for h in RT_FIXED_HISTORIES]
+    hs_rt += [dict(c17_gen.gen_history(rng, 'valid', sync=True), mode='rt') for _ in range(ctx.n(150, 1200))]
+    hs_rt += [dict(c17_gen.gen_history(rng, 'misuse', sync=True), mode='rt') for _ in range(ctx.n(40, 300))]
+
+    def run_batch(batch, mode):
+        r = ctx.impl('c17_hist', {'histories': [h['ops'] for h in batch], 'latencies': [h.get('latency') for h in batch]},
+                     mode=mode, timeout=900)
+        SD_NBYTES[0] = r['sd_nbytes']
+        valid = [h for h in batch if h['cls'] == 'valid']
+        fl = ctx.impl('c17_hist', {'histories': [strip_binds(h['ops']) for h in valid],
+                                   'latencies': [h.get('latency') for h in valid]}, mode=mode, timeout=900)['out']
+        return r['out'], fl
+    outs, flat = run_batch(hs, 'nrt')
+    outs_rt, flat_rt = run_batch(hs_rt, 'rt')
+    # two servers in one history
+    pairs = [(dict(h), to_other_server(dict(h))) for h in MULTI_FIXED]
+    for _ in range(ctx.n(60, 500)):
+        cl = rng.choice(['valid', 'valid', 'valid', 'misuse'])
+        pairs.append((c17_gen.gen_history(rng, cl, n_ops=rng.choice([4, 8, 12])), to_other_server(c17_gen.gen_history(rng, cl, n_ops=rng.choice([4, 8, 12])))))
+    merged = [merge(rng, a, b) for a, b in pairs]
+    mres = ctx.impl('c17_hist', {'histories': merged, 'latencies': [[a.get('latency'), b.get('latency')] for a, b in pairs]}, timeout=900)['out']
+    hs_m, outs_m = [], []
+    for mg, o, pr in zip(merged, mres, pairs):
+        if o.get('crash'):
+            c.failures.append(Failure('correspondence', 'two-server history crashed the runner: ' + o['crash'][:600], replay={'history': mg}))
+            continue
+        for hk, ok in split_multi(mg, o, pr):
+            hs_m.append(hk); outs_m.append(ok)
+    valid_m = [h for h in hs_m if h['cls'] == 'valid']
+    flat_m = ctx.impl('c17_hist', {'histories': [strip_binds(h['ops']) for h in valid_m],
+                                   'latencies': [h.get('latency') for h in valid_m]}, timeout=900)['out']
+    c.count('mode:two-server-histories', len(merged))
+    hs = hs + hs_rt + hs_m
+    outs = outs + outs_rt + outs_m
+    flat = flat + flat_rt + flat_m
+    c.count('mode:rt-histories', len(hs_rt))
     flat_of = {}
     k = 0
     for i, h in enumerate(hs):
@@ -1000,7 +1189,7 @@ def correspond(ctx):
                 'the implementation violates the property on this history (and differs from the repaired model): ' + '; '.join(t for _, t in texts[:3]),
                 signature=sig, found_input=True,
                 theorem='free_emits_each_owned_id_once_and_returns_it' if sig in (SIG_F14, SIG_F15) else 'emitted_conform',
-                replay={'history': h['ops'], 'latency': h.get('latency'), 'observed': [[st['ev'], st['exc']] for st in o['steps']], 'violations': [t for _, t in texts],
+                replay={'history': h['ops'], 'mode': h.get('mode', 'nrt'), 'two_server_history': o.get('merged'), 'latency': h.get('latency'), 'observed': [[st['ev'], st['exc']] for st in o['steps']], 'violations': [t for _, t in texts],
                         'how': 'SC3_MODE=nrt PYTHONPATH=/repo:/verif/harness /venv/bin/python harness/impl/c17_hist.py <in.json> <out.json> with {"histories": [history]}'}))
         elif h['cls'] == 'valid':
             # the repaired model is the verified reference (emitted_conform, ids_only_allocated, create / free / bind theorems):
@@ -1014,11 +1203,11 @@ def correspond(ctx):
             c.failures.append(Failure('correspondence',
                                       'the implementation departs from the verified reference model on a valid history: ' + where,
                                       found_input=True, theorem='emitted_conform / create_emits_own_id / free_emits_each_owned_id_once_and_returns_it',
-                                      replay={'history': h['ops'], 'latency': h.get('latency'), 'first_difference_at_op': di,
+                                      replay={'history': h['ops'], 'mode': h.get('mode', 'nrt'), 'two_server_history': o.get('merged'), 'latency': h.get('latency'), 'first_difference_at_op': di,
                                               'observed': [[st['ev'], st['exc']] for st in o['steps']], 'model_says': dtxt}))
         else:
             c.failures.append(Failure('correspondence', 'model (Proto.run repaired) and implementation disagree on a %s history' % h['cls'],
-                                      replay={'history': h['ops'], 'latency': h.get('latency'), 'observed': [[st['ev'], st['exc']] for st in o['steps']]}))
+                                      replay={'history': h['ops'], 'mode': h.get('mode', 'nrt'), 'two_server_history': o.get('merged'), 'latency': h.get('latency'), 'observed': [[st['ev'], st['exc']] for st in o['steps']]}))
     # independent monitors on every valid history, even when the model agrees
     for i, (h, o) in enumerate(zip(hs, outs)):
         if h['cls'] != 'valid' or o.get('crash') or i in [idx[b] for b in bad]:
